@@ -319,6 +319,13 @@ func (p *phaser) alignAgainstRefsAA(seq Sequence, orfsaa []Sequence) (ph PhasedS
 		}
 	}
 
+	// No reference aligns with this sequence: it is discarded
+	if bestseq == nil {
+		empty := NewSequence(seq.Name(), []uint8{}, seq.Comment())
+		ph = PhasedSequence{Err: nil, Removed: true, Position: 0, NtSeq: empty, CodonSeq: empty, AaSeq: empty, Ali: nil}
+		return
+	}
+
 	ph = PhasedSequence{
 		Err:      nil,
 		Removed:  false,
@@ -412,6 +419,13 @@ func (p *phaser) alignAgainstRefsNT(seq Sequence, orfs []Sequence) (ph PhasedSeq
 	}
 
 	phase = (3 - nbgapstart%3) % 3
+	// No reference aligns with this sequence: it is discarded
+	if bestseq == nil {
+		empty := NewSequence(seq.Name(), []uint8{}, seq.Comment())
+		ph = PhasedSequence{Err: nil, Removed: true, Position: 0, NtSeq: empty, CodonSeq: empty, AaSeq: empty, Ali: nil}
+		return
+	}
+
 	ph = PhasedSequence{
 		Err:      nil,
 		Removed:  false,
